@@ -19,6 +19,16 @@
 (*                 z, w are the documented ones of psi^n, mu^n, epsilon,   *)
 (*                 dt and the covariant Laplacian in force; dpos = exact   *)
 (*                 sign of their discriminant (where |D|/(2c+1)^2 >= 1e-9) *)
+(*         "history" a site of one call of a HISTORY of calls made by one  *)
+(*                 caller on its own argument buffers (per buffer: one     *)
+(*                 array rewritten in place, a new view of one block of    *)
+(*                 memory, or a new array per call; between calls some of  *)
+(*                 psi, mu, epsilon, the Laplacian entries, dt, gamma, u   *)
+(*                 change).  The property quantifies over inputs, so the   *)
+(*                 call is judged exactly like an isolated one: z, w are   *)
+(*                 the documented ones of the numbers in the buffers at    *)
+(*                 the time of THIS call, dpos the exact sign of their     *)
+(*                 discriminant; what was asked before is not an input.    *)
 (*   e1    |p + z s - w| in quanta (quantum = T.quantum of the scale)      *)
 (*   e2    |s - |p|^2|   in quanta                                         *)
 (*   br    2|z|^2 s <= 2c+1 (with the same tolerance)                      *)
@@ -47,6 +57,7 @@ OnGrid(n) == E(n).kind \in {"grid", "free"}
 SolvableAt(n) == \/ E(n).kind = "small"
                  \/ E(n).kind = "near" /\ E(n).dpos
                  \/ E(n).kind = "insitu" /\ E(n).dpos
+                 \/ E(n).kind = "history" /\ E(n).dpos
                  \/ OnGrid(n) /\ Solvable(E(n).zr, E(n).zi, E(n).wr, E(n).wi)
 VerdictFree(n) == E(n).kind = "free"
 
